@@ -94,7 +94,7 @@ def apply_verdicts(rep: Report, verdicts):
         rep.check(ok, rule, instance, construct, detail, key=key)
 
 
-ALIASING = ("mutates-shared", "mutates-caller-container", "state-dict-aliased")
+ALIASING = ("mutates-shared", "mutates-caller-container", "state-dict-aliased", "dtype-cast")
 
 
 def aliasing_event(path):
